@@ -23,6 +23,35 @@ CLAIMED = {
          "and ScopeId::direct_parent_ids (petgraph iterator chains) are assumed contracts exercised only by the bounded search; that "
          "process_blueprint hands each nested blueprint a fresh scope under its parent and registers components in it is not under contract."),
    design="§3/C04"),
+ "C05": dict(
+   text=("Partial claim — the compile-time half of one sentence: WHICH middlewares are attached to WHICH handler, in which order "
+         "('middlewares registered before the route, in the same or an enclosing blueprint, in registration order; middlewares registered "
+         "after a route, or in a sibling blueprint, never run for it'). Verus discharges, on the real text of "
+         "pavexc::compiler::analyses::user_components::blueprint (process_blueprint, _process_blueprint, process_route, process_fallback, "
+         "process_middleware, process_pre/post_processing_middleware, process_error_observer, process_constructor, process_error_handler, "
+         "process_prebuilt_type, process_config_type, process_component_specific_error_handler) and AuxiliaryData::intern_component: per "
+         "blueprint level, every route is recorded with exactly the chain handed in plus the middlewares registered BEFORE it at this level, "
+         "in order (loop invariant over any number of components of the 13 kinds); every nested blueprint is queued with exactly the chain "
+         "as it stood where it was nested (a copy: later registrations of the parent or of a sibling cannot reach it); the fallback gets the "
+         "chain after the last component; the ids in a chain denote those very registrations (kind + annotation coordinates); entries "
+         "recorded earlier are never rewritten. The whole-tree statement is checked by a bounded model-based native search (labelled bounded)."),
+   note=("NOT decided — and this is most of C05: the ORDER in which the attached middlewares and the handler RUN, early returns, "
+         "post-processors captured by a wrapping scope: stage functions emitted by processing_pipeline/codegen.rs and the stage grouping of "
+         "RequestHandlerPipeline::new, i.e. the emitted program (DESIGN §1.3). The induction from 'one level + hand-over through the "
+         "work-list' to the whole tree is not mechanised; termination of the work-list loop is assumed (allow-listed attribute, listed in "
+         "trusted_base); la_arena/interner/maps/add_scope are assumed stand-ins."),
+   design="§3/C05"),
+ "C06": dict(
+   text=("Partial claim — the compile-time half of one sentence: WHICH error observers are attached to WHICH handler ('every error observer "
+         "registered before the route ..., in registration order; observers registered after the route do not run'). Same unit and same "
+         "functions as C05 (obligations tagged @C06): per blueprint level every route and the fallback are recorded with exactly the observer "
+         "chain handed in plus the observers registered BEFORE them at this level, in order; nested blueprints are queued with a copy of "
+         "the chain as it stood; process_error_observer appends exactly the interned observer; no other function touches the observer "
+         "table. The whole-tree statement is checked by the same bounded model-based native search (labelled bounded)."),
+   note=("NOT decided — and this is most of C06: that nothing depending on an Ok value runs after an Err, that the right error handler runs "
+         "exactly once, that observers run after it and before the response leaves: match-branch injection in core_graph.rs over ComponentDb "
+         "and `Err(e) => return` arms of the emitted program (DESIGN §1.3). Same assumptions as C05."),
+   design="§3/C06"),
  "C07": dict(
    text=("Partial claim — a thin slice: the one clause of the statement that is decided by hand-written run-time code. Verus discharges, "
          "on the real text of pavex::router::default_fallback and AllowedMethods::allow_header_value, that the default fallback answers "
